@@ -135,15 +135,26 @@ pub fn gen_case(t: &mut Tape) -> Case {
                 let same_table = frame.cols.iter().any(|c| c.rel.as_deref() == Some(tb.name.as_str()));
                 e2_flag = alias.is_empty() && ((left_computed && !right_plain) || same_table);
                 let nn = crate::model::print::ident(&n);
-                let use_ = match t.choose(4) {
-                    0 => format!("derive {{zz = {nn}}}"),
-                    1 => format!("filter {nn} == {nn}"),
-                    2 => format!("sort {{{nn}}}"),
-                    _ => format!("select {{{nn}}}"),
+                // the bare name is used after the join, or inside the join condition itself (where
+                // `this` and `that` are both in scope)
+                let k = t.choose(7);
+                let use_ = match k {
+                    0 => format!(" | derive {{zz = {nn}}}"),
+                    1 => format!(" | filter {nn} == {nn}"),
+                    2 => format!(" | sort {{{nn}}}"),
+                    3 => format!(" | select {{{nn}}}"),
+                    _ => String::new(),
+                };
+                let side = *t.pick(&["", "side:left ", "side:full "]);
+                let cond = match k {
+                    4 => format!("{nn} == {nn}"),
+                    5 => format!("{nn} != null"),
+                    6 => format!("true && ({nn} ?? {nn}) == {nn}"),
+                    _ => "true".to_string(),
                 };
                 (
-                    format!("E2 ambiguous bare name `{n}` after join"),
-                    format!(" | join {alias}(from {} | select {{{right_item}}}) (true) | {use_}", tb.name),
+                    if k >= 4 { format!("E2 ambiguous bare name `{n}` inside the join condition") } else { format!("E2 ambiguous bare name `{n}` after join") },
+                    format!(" | join {side}{alias}(from {} | select {{{right_item}}}) ({cond}){use_}", tb.name),
                 )
             }
         }
